@@ -922,12 +922,24 @@ var blockRules = map[BlockKind]blockRule{
 		},
 		onClose: func(source []byte, block *Block) []*Block {
 			// "Blank lines preceding or following an indented code block are not included in it."
-			for i := block.ChildCount() - 1; i >= 0; i-- {
-				child := block.inlineChildren[i]
+			end := block.ChildCount()
+			if end > 0 && block.inlineChildren[end-1].Kind() == SoftLineBreakKind {
+				// A code block that ends at EOF without a line ending
+				// has a synthetic soft line break after its last line.
+				// It is only kept if that last line is kept.
+				end--
+			}
+			i := end
+			for ; i > 0; i-- {
+				child := block.inlineChildren[i-1]
 				if child.Kind() != TextKind || !isBlankLine(spanSlice(source, child.Span())) {
 					break
 				}
-				block.inlineChildren[i] = nil // free for GC
+			}
+			if i < end {
+				for j := i; j < len(block.inlineChildren); j++ {
+					block.inlineChildren[j] = nil // free for GC
+				}
 				block.inlineChildren = block.inlineChildren[:i:i]
 			}
 			return []*Block{block}
